@@ -33,4 +33,9 @@ def decoders : List Decoder := [
   ⟨"telemetrykeys", "decodeWithTelemetry", "errbase.GetTypeKey((*withTelemetry)(nil))", "wrapper", []⟩
 ]
 
+/-- additional paths of the decoders above (`if x, ok := payload.(*T); ok { … return … }`: the body is one
+    path, what follows the statement another) -/
+def decoderPaths : List Decoder := [
+]
+
 end ErrModel.DecProg
